@@ -1,3 +1,4 @@
+pub mod alloc_track;
 pub mod analysis;
 pub mod checks;
 pub mod cli;
@@ -14,4 +15,9 @@ pub mod scenario;
 pub mod simfs;
 pub mod pdus;
 pub mod sweep;
+pub mod wirecorpus;
 pub mod world;
+
+pub mod cfdp_core_reexport {
+    pub use cfdp_core::pdu::{PDUEncode, PDU};
+}
